@@ -80,7 +80,16 @@ static int c_##P##_encrypt_detached(A) { return P##_encrypt_detached(b[0], b[1],
 static void p_##P##_decrypt_detached(A) { cm_avail = (AVAIL); if (cm_avail && cm == 1) { unsigned char *m = tmp_rand(l1), *t = (unsigned char *) malloc(l1 + 1), mac[AB]; \
     P##_encrypt_detached(t, mac, NULL, m, l1, b[3], l2, NULL, b[4], b[5]); vcpy(b[1], t, l1); vcpy(b[2], mac, AB); free(t); free(m); } } \
 static int c_##P##_decrypt_detached(A) { return P##_decrypt_detached(b[0], NULL, b[1], l1, b[2], b[3], l2, b[4], b[5]); }
+#define AEADVO(P, AB, AVAIL) \
+static void p_##P##_decrypt_verifyonly(A) { cm_avail = (AVAIL); if (cm_avail && cm == 1) { unsigned char *m = tmp_rand(l1), *t = (unsigned char *) malloc(l1 + AB); \
+    P##_encrypt(t, NULL, m, l1, b[2], l2, NULL, b[3], b[4]); vcpy(b[1], t, l1 + AB); free(t); free(m); } } \
+static int c_##P##_decrypt_verifyonly(A) { return P##_decrypt(NULL, (ULL *) (void *) b[0], NULL, b[1], l1 + AB, b[2], l2, b[3], b[4]); } \
+static void p_##P##_decrypt_detached_verifyonly(A) { cm_avail = (AVAIL); if (cm_avail && cm == 1) { unsigned char *m = tmp_rand(l1), *t = (unsigned char *) malloc(l1 + 1), mac[AB]; \
+    P##_encrypt_detached(t, mac, NULL, m, l1, b[2], l2, NULL, b[3], b[4]); vcpy(b[0], t, l1); vcpy(b[1], mac, AB); free(t); free(m); } } \
+static int c_##P##_decrypt_detached_verifyonly(A) { return P##_decrypt_detached(NULL, NULL, b[0], l1, b[1], b[2], l2, b[3], b[4]); }
 AEAD(crypto_aead_chacha20poly1305, 16, 1)
+AEADVO(crypto_aead_chacha20poly1305, 16, 1) AEADVO(crypto_aead_chacha20poly1305_ietf, 16, 1) AEADVO(crypto_aead_xchacha20poly1305_ietf, 16, 1)
+AEADVO(crypto_aead_aes256gcm, 16, crypto_aead_aes256gcm_is_available())
 AEAD(crypto_aead_chacha20poly1305_ietf, 16, 1)
 AEAD(crypto_aead_xchacha20poly1305_ietf, 16, 1)
 AEAD(crypto_aead_aes256gcm, 16, crypto_aead_aes256gcm_is_available())
@@ -118,7 +127,9 @@ static int c_crypto_secretstream_xchacha20poly1305_rekey(A) { SS(rekey)((SS(stat
     EP(P##_seal, 3), EP(P##_seal_open, 4), E(P##_seal_open_short, 4)
 #define FN_AEAD(P) EP(P##_encrypt, 6), { #P "_encrypt_nolen", 5, p_##P##_encrypt, c_##P##_encrypt_nolen }, EP(P##_decrypt, 6), EP(P##_decrypt_short, 6), \
     { #P "_encrypt_detached", 7, p_##P##_encrypt, c_##P##_encrypt_detached }, EP(P##_decrypt_detached, 6)
+#define FN_AEADVO(P) EP(P##_decrypt_verifyonly, 5), EP(P##_decrypt_detached_verifyonly, 5)
 #define FNS_CIPHER \
+    FN_AEADVO(crypto_aead_chacha20poly1305), FN_AEADVO(crypto_aead_chacha20poly1305_ietf), FN_AEADVO(crypto_aead_xchacha20poly1305_ietf), FN_AEADVO(crypto_aead_aes256gcm), \
     FN_STREAM(crypto_stream_chacha20), E(crypto_stream_chacha20_xor_ic, 4), FN_STREAM(crypto_stream_chacha20_ietf), E(crypto_stream_chacha20_ietf_xor_ic, 4), \
     FN_STREAM(crypto_stream_xchacha20), E(crypto_stream_xchacha20_xor_ic, 4), FN_STREAM(crypto_stream_salsa20), E(crypto_stream_salsa20_xor_ic, 4), \
     FN_STREAM(crypto_stream_xsalsa20), E(crypto_stream_xsalsa20_xor_ic, 4), FN_STREAM(crypto_stream_salsa2012), FN_STREAM(crypto_stream_salsa208), FN_STREAM(crypto_stream), \
